@@ -5,7 +5,7 @@
    Pop/Remove).  Theorems hold for ALL capacities cap >= 0, icap > 0 (the code's
    2^20 and 8 are an instance) within one NTP era. *)
 From ST Require Base.Mutex.
-From ST Require Import Base.Ints Model.NtpTime Model.Tss Proofs.TssProofs Proofs.TssInv Proofs.TssRun.
+From ST Require Import Base.Ints Model.NtpTime Model.Tss Proofs.TssProofs Proofs.TssInv Proofs.TssRun Proofs.TssExact.
 From Coq Require Import ZArith List.
 Import ListNotations.
 Open Scope Z_scope.
@@ -41,6 +41,19 @@ Proof.
   rewrite Forall_forall in Hall. destruct (Hall it Hit) as [_ [_ [H3 [H4 _]]]]. auto.
 Qed.
 Print Assumptions C07_qval_ge_latest.
+
+(* ... and exactly as its most recent stored exchange when requests arrive in
+   timestamp order (each request of a client that has state is newer than that
+   client's queue value): the queue value is the largest stored receive stamp.
+   The hypothesis cannot be dropped (TssExact.out_of_order_not_exact). *)
+Theorem C07_qval_is_newest_in_order : forall k c ops s log,
+  0 < icap c -> 0 <= cap c ->
+  Forall (op_in_era k c) ops -> all_in_order c tss_empty ops ->
+  run_log c tss_empty [] ops = Some (s, log) ->
+  forall it, In it (items s) ->
+    exists e, In e (it_ents it) /\ it_qval it = e_rx e /\ forall e', In e' (it_ents it) -> e_rx e' <= e_rx e.
+Proof. exact run_qval_is_newest. Qed.
+Print Assumptions C07_qval_is_newest_in_order.
 
 (* a request from a client without state: the store evicts only when it is full,
    only the client with the minimal queue value (least recently active), and only
